@@ -252,6 +252,7 @@ pub fn base_plan(family: &'static str, role: Role, ch: &mut Choices) -> Plan {
         tags: Vec::new(),
         gate_order: Vec::new(),
         ext_script: Vec::new(),
+        glue_from: None,
         immediate_mask: Vec::new(),
     }
 }
@@ -1193,6 +1194,24 @@ fn gen_c07(ch: &mut Choices) -> Plan {
         0 => plan.faults.fin_at_step = Some(1 + u64::from(ch.choose(span))),
         1 => plan.faults.rst_at_step = Some(1 + u64::from(ch.choose(span))),
         2 => plan.faults.wr_err_at_step = Some(1 + u64::from(ch.choose(span))),
+        3 if ch.chance(1, 4) => {
+            // motif: two publishes whose handlers stay busy and, in the very same read, bytes that cannot be
+            // decoded: the connection ends in the dispatcher poll that started the last handler
+            let at = plan.peer.script.len();
+            for k in 0..(2 + ch.choose(3)) {
+                let mut p = mk_publish(ver, ch, 95 + k, 1, Some(95 + k as u16), 2);
+                p.dup = false;
+                plan.peer.script.push(step(Pkt::Publish(p), ver, Pre::Connected));
+            }
+            let (bytes, what) = undecodable(ch);
+            plan.peer.script.push(PeerStep { pre: Pre::Connected, bytes, pkt: None, corrupt: Some(what.to_string()), then_close: None });
+            plan.glue_from = Some(at);
+            plan.cut = Cut::All;
+            plan.p_immediate = 0;
+            plan.cfg.ctl_gated = false;
+            plan.w_payload = [1, 0, 0];
+            plan.tags.push("motif:cause-in-the-same-read".into());
+        }
         3 => {
             // undecodable input somewhere in the stream, or a packet cut short followed by FIN
             let at = ch.choose(plan.peer.script.len() as u32 + 1) as usize;
